@@ -107,6 +107,7 @@ func badQ(specs []header.AcceptSpec) bool {
 
 type api struct {
 	h     http.Handler
+	ctx   *middleware.Context
 	calls *int
 	// routeProduces is the offer list this instance really negotiates on. It is the declared
 	// produces list in the order analysis.ProducesFor returned it (a Go map iteration order,
@@ -162,7 +163,7 @@ func buildAPIOnce(produces []string, def string) *api {
 		return "v", nil
 	}))
 	ctx := middleware.NewContext(doc, a, nil)
-	res := &api{h: ctx.APIHandler(nil), calls: calls}
+	res := &api{h: ctx.APIHandler(nil), ctx: ctx, calls: calls}
 	if route, ok := ctx.LookupRoute(&http.Request{Method: "GET", URL: theURL}); ok {
 		res.routeProduces = append([]string(nil), route.Produces...)
 	}
